@@ -555,6 +555,36 @@ def fold_const(node, env=None, depth=0):
                 raise NotConst(str(e))
         if fn in ('re.compile',) and node.args:
             return fold_const(node.args[0], env, depth + 1)
+        funcs = getattr(env, 'funcs', None)
+        if funcs and isinstance(node.func, ast.Name) and \
+                node.func.id in funcs and not node.keywords:
+            # a module-level function that only computes a constant from
+            # its arguments: straight-line assignments and one return
+            fdef = funcs[node.func.id].node
+            ps = [a.arg for a in fdef.args.args]
+            if len(ps) != len(node.args) or fdef.args.vararg or \
+                    fdef.args.kwarg or fdef.args.kwonlyargs:
+                raise NotConst('call')
+            loc = {p_: fold_const(a, env, depth + 1)
+                   for p_, a in zip(ps, node.args)}
+
+            def env2(name):
+                if name in loc:
+                    return ast.Constant(value=loc[name])
+                return env(name)
+            env2.funcs = funcs
+            for st in fdef.body:
+                if isinstance(st, ast.Expr) and \
+                        isinstance(st.value, ast.Constant):
+                    continue
+                if isinstance(st, ast.Assign) and len(st.targets) == 1 and \
+                        isinstance(st.targets[0], ast.Name):
+                    loc[st.targets[0].id] = fold_const(st.value, env2,
+                                                       depth + 1)
+                    continue
+                if isinstance(st, ast.Return) and st.value is not None:
+                    return fold_const(st.value, env2, depth + 1)
+                raise NotConst('call body')
         raise NotConst('call')
     raise NotConst(type(node).__name__)
 
@@ -574,6 +604,7 @@ def module_env(repo, module, cls=None):
             if rn is not None and rn in rm.consts:
                 return rm.consts[rn]
         return None
+    env.funcs = module.functions
     return env
 
 
